@@ -1965,7 +1965,15 @@ func c11_runC11(e *Env) {
 		"and risor.NewConfig; random option sequences over WithGlobals(M_i)/WithGlobal/WithoutGlobal/WithGlobalOverride/WithoutDefaultGlobals) built one after the other " +
 		"and, in a child process, concurrently; after every build every host map / host module / host container is compared by identity with what the host wrote, every Config's " +
 		"globals are compared with Risor.C11.runBuilds (Impl) and Risor.C11.ownGlobals (Spec) right after its build and again after all builds, and scripts run under every " +
-		"configuration's options; non-trivial when a non-nil host map is named by at least two of the builds"
+		"configuration's options; non-trivial when a non-nil host map is named by at least two of the builds. " +
+		"SHARED HOST OBJECTS: 2-3 configurations whose WithGlobalOverride / WithGlobal options name the SAME host objects (two builtins without a module, a builtin of a host module, " +
+		"a string, a module, a host callback) under dotted names of default modules (os, math, …), of private host modules hm{f,g,sub{f}} and top-level names, mixed with removals of other " +
+		"members (20 directed scenarios: restricted tenant first / last / three tenants / different modules / nested members, each also with the last configuration built by a host callback " +
+		"WHILE a script of the previous one runs; random option lists); after every build the globals, every module table and every registered builtin's __module__ are compared by identity with " +
+		"Risor.C11.runBuildsO, 8-30 access scripts of EVERY configuration built so far (replacement, replacement.__module__, what lies behind it, removed names through sibling and replacement " +
+		"back-references) are evaluated on its Config and compared with the model at that stage, with their own result right after the configuration's build, and with the Spec (no object of another " +
+		"configuration, no removed object), and at the end Lean's reach decides on the real graph of every configuration whether a foreign module or a removed object is reachable; non-trivial when " +
+		"a host builtin is named by at least two of the builds"
 	r := &c11Run{e: e}
 	// the attribute-name universe regenerated from /repo on this run, through the oracle
 	u := e.O.Ask("C11", "universe")
@@ -2195,6 +2203,11 @@ func c11_runC11(e *Env) {
 	// 7. HOST-OWNED INPUTS shared between configurations (c11shared.go): the same Go map value (and
 	// the same objects inside it) handed to several Configs / evaluations, sequentially and concurrently
 	r.runShareds(rng.Fork())
+
+	// 8. HOST OBJECTS shared between configurations (c11objs.go): the same replacement builtin / host
+	// value installed by several configurations that deny and override different things; later
+	// builds (also by a host callback during a run) must change nothing for an earlier configuration
+	r.runObjects(rng.Fork())
 
 	// 4. WithoutDefaultGlobals with nothing / with explicit defaults and no edits
 	r.runCase(&c11Case{style: "W", kind: "empty"}, rng.Fork())
